@@ -6,6 +6,7 @@ import os
 import re
 from fractions import Fraction
 
+from . import c19b
 from . import common as C
 from . import gtfiles as GF
 from . import simdata as SD
@@ -156,9 +157,7 @@ def materialise(case):
     C.rm_tree(d)
     d.mkdir(parents=True)
     with open(d / "model.dat", "w") as f:
-        f.write(case["sep"].join([case["nsamp"], "Admixed", *case["pops"]]) + "\n")
-        for l in case["lines"]:
-            f.write(case["sep"].join(l) + "\n")
+        f.write(C.text_ending(case, "model.dat", case["sep"].join([case["nsamp"], "Admixed", *case["pops"]]) + "\n" + "".join(case["sep"].join(l) + "\n" for l in case["lines"])))
     md = d / "maps"
     md.mkdir()
     # maps of chromosomes that were not requested may lie in the same directory (a user keeps all of them there),
@@ -171,12 +170,14 @@ def materialise(case):
     for c in set(case["chroms"]) & set(MAPS):
         if c == case["map_missing"]:
             continue
+        txt = ""
+        for i, (bp, cm) in enumerate(MAPS[c]):
+            fields = [c, f"rs{bp}", str(cm), str(bp)]
+            if case["bad_map_line"] and case["bad_map_line"][0] == c and i == (case["bad_map_line"][2] if len(case["bad_map_line"]) > 2 else 2):
+                fields = fields[:3] if case["bad_map_line"][1] == 3 else fields + ["extra"]
+            txt += " ".join(fields) + "\n"
         with open(md / f"genetic_map_chr{c}.map", "w") as f:
-            for i, (bp, cm) in enumerate(MAPS[c]):
-                fields = [c, f"rs{bp}", str(cm), str(bp)]
-                if case["bad_map_line"] and case["bad_map_line"][0] == c and i == (case["bad_map_line"][2] if len(case["bad_map_line"]) > 2 else 2):
-                    fields = fields[:3] if case["bad_map_line"][1] == 3 else fields + ["extra"]
-                f.write(" ".join(fields) + "\n")
+            f.write(C.text_ending(case, "map" + c, txt))
     # reference panel + sample info
     samples, info = [], []
     for p in ["CEU", "YRI", "AMR", "EAS"]:
@@ -194,8 +195,7 @@ def materialise(case):
     GF.write_vcf_text(d / "ref.vcf", samples, variants, data, contigs=sorted(set(ref_chroms), key=lambda c: 23 if c == "X" else int(c)))
     GF.compress_index(d / "ref.vcf", d / "ref.vcf.gz")
     with open(d / "info.tab", "w") as f:
-        for s, p in info:
-            f.write(f"{s}\t{p}\n")
+        f.write(C.text_ending(case, "info.tab", "".join(f"{s}\t{p}\n" for s, p in info)))
     return d, samples, info
 
 
@@ -464,6 +464,18 @@ CHECK = Check(
             teardown=teardown,
             nontrivial=lambda c, o: C.jdump(c),
             rule="the same generator through `haptools simgenotype` (click CliRunner: --model/--mapdir/--chroms or --region/--popsize/--seed/--ref_vcf/--sample_info/--no_replacement/--only_breakpoint): exit status, the refusal's message mapped to the reason enum, the population size simulate_gt is called with, the haplotype count and tiling of the written .bp file – compared with the same Lean pipeline; validate_params, simulate_gt and output_vcf are wrapped while the command runs and the arguments they receive (no_replacement, only_bp, popsize, region, chroms, seed, POP/SAMPLE flags, the validated population size) are compared with what the options mean, so that the option glue of __main__.py is covered as well",
+        ),
+        Section(
+            name="simgenotype_as_typed_in_a_shell",
+            theorems=["C20.accepts_wellformed", "C20.completes_partial"],
+            gen=c19b.gen_simgt_shell,
+            impl=lambda case: c19b.impl_simgt_shell(case, _dir),
+            oracle=c19b.oracle_simgt_shell,
+            describe=lambda c, o: ["out=" + c["out"], "pop_field" if c["pop"] else "no-pop_field", "sample_field" if c["sample"] else "no-sample_field"],
+            setup=setup,
+            teardown=teardown,
+            nontrivial=lambda c, o: C.jdump(c),
+            rule="`python -m haptools simgenotype` as a process of its own in a working directory whose name holds a blank, every input by relative path, --out a bare name, an upper-case spelling (SIM.VCF), a compressed or BCF name with a blank, a nested and a dotted name, with and without --pop_field / --sample_field: exit status 0, the named file exists, breakpoints and genotypes with their POP / SAMPLE annotations equal what validate_params + simulate_gt + write_breakpoints + output_vcf write for the same inputs, seed and flags",
         ),
     ],
     trusted=["int()/float() token conversion as mirrored by the harness tokeniser", "glob/regex map-file discovery (the harness counts matching files with the same pattern)", "np.float32 sum of fractions agrees with the exact decimal sum to within the 1e-6 tolerance when the violation is >= 1e-3 (clear margin)"],
